@@ -2,7 +2,7 @@
    recomputed by the control-structure model from the recorded oracles (per-quadratic parameter
    lists, sub-curve ranges), with exactly-rounded arithmetic of the scalar type (24 or 53 bits). *)
 From Coq Require Import QArith.
-From LV Require Import Base.Prelude Base.F32 Model.Flatten.
+From LV Require Import Base.Prelude Base.F32 Model.Flatten Model.Bezier Checker.Region Checker.CurveDev.
 Open Scope Q_scope.
 
 Definition nthq (l : list Q) (i : nat) : Q := nth i l 0.
@@ -34,4 +34,33 @@ Definition bad_cases (cs : list fcase) : list Z :=
   flat_map (fun c => match c with
     | QC id ts ranges => if list_eqb rng_eqb (quad_ranges ts) ranges then [] else [id]
     | CC id prec quads ranges => if list_eqb rng_eqb (cubic_ranges prec quads) ranges then [] else [id]
+    end) cs.
+
+(* ---- verified curve-deviation cases (Checker/CurveDev.v, soundness in Props/C09.v) ----
+   report codes: 0 = undecided range (fuel exhausted; never an alarm), 1 = parameters not ordered /
+   not ending at 1, 2 = witness: a curve point (range index, parameter num / den) farther than the
+   tolerance from every segment, 3 = vertex i farther than the tolerance from the curve point of its
+   own parameter *)
+Inductive dcase :=
+| QD (id : Z) (tol2 vtol2 : Q) (c : quad) (ts : list Q) (pts : list qpt)
+| CD (id : Z) (tol2 vtol2 : Q) (c : cubic) (ts : list Q) (pts : list qpt).
+
+Definition dev_fuel : nat := 12.
+
+Definition dev_report (id : Z) (r : option (list (Z * verdict))) (vfar : list Z) : list (Z * Z * list Z) :=
+  match r with
+  | None => [(id, 1%Z, [])]
+  | Some l => flat_map (fun x => match snd x with
+                                 | VFar t => [(id, 2%Z, [fst x; Qnum t; Zpos (Qden t)])]
+                                 | VUnknown => [(id, 0%Z, [fst x])]
+                                 | VOk => []
+                                 end) l
+  end ++ map (fun i => (id, 3%Z, [i])) vfar.
+
+Definition dev_bad_cases (cs : list dcase) : list (Z * Z * list Z) :=
+  flat_map (fun c => match c with
+    | QD id tol2 vtol2 c ts pts =>
+        dev_report id (quad_flat_check dev_fuel tol2 c ts pts) (quad_vertices_far vtol2 c ts (tl pts) 1%Z)
+    | CD id tol2 vtol2 c ts pts =>
+        dev_report id (cubic_flat_check dev_fuel tol2 c ts pts) (cubic_vertices_far vtol2 c ts (tl pts) 1%Z)
     end) cs.
